@@ -1,5 +1,7 @@
-(* C03 — every emitted tag mirrors the bytes at its reported offset; tags tile the stream.  Statements only. *)
-From Ebml Require Import Base Tools Spec Reader Pure Proofs.Tactics Proofs.ReaderIO Proofs.Refine Proofs.PureProofs.
+(* C03 — every emitted tag mirrors the bytes at its reported offset; tags tile the stream.  Statements only
+   (proofs in Proofs/PureProofs.v and Proofs/Tiling.v). *)
+From Ebml Require Import Base Tools Spec Reader Pure Proofs.Tactics Proofs.ReaderIO Proofs.Refine Proofs.PureProofs
+  Proofs.RollUp Proofs.Nesting Proofs.BufferSim Proofs.Tiling.
 
 (* One tag (every configuration, every parser state, every remaining input): if reading a tag succeeds then
    - the offset recorded for the item is the cursor position before the tag,
@@ -27,9 +29,107 @@ Theorem C03_buffered_same : forall c cap0 script input ops, calm script ->
   run_reader c cap0 script input ops = p_run c input ops.
 Proof. exact buffered_refines_pure. Qed.
 
-(* PARTIAL: the run-level statements (End and Full items report the offset of their Start; consecutive non-End items of a
-   whole run tile the input) follow the frames' f_start bookkeeping and are covered by the correspondence check with the
-   independent re-decoder (props/readcheck.py check_tiling); they are not yet proved as theorems. *)
+(* ------------------------------------------------------------------ whole runs: tiling
+   Vocabulary (Proofs/Tiling.v).
+   [mirrors sp t seg rest]: the segment [seg], followed in the input by [rest], is header ++ payload where the header is the
+     element id of [t] ([dec_id], the id the reader decodes at the start of the segment) followed by the size field
+     ([read_vint]); for a Start the payload part is empty and the id is a master; for an element the payload has the announced
+     size and the item's value is its documented decoding ([decodes]); End and Full items have no segment.
+   [Tiles sp off bytes items off' rest]: [bytes] sits at absolute offset [off]; the first item reports offset [off] and mirrors
+     a first segment of [bytes], the next item reports [off + length of that segment] and mirrors the segment that follows, and so
+     on; after the last item the offset is [off'] and [rest] is what remains.  [Tiled sp off bytes items]: for some [off'], [rest].
+   [non_end_items outs]: the items of a run that are not End items, each with its offset, in order.
+   [clean_prefix outs]: the outcomes of a run before the first error, try_recover result, panic-site or budget outcome.
+   An error consumes the bytes of the offending element without yielding an item and try_recover skips bytes on purpose, so
+   the tiling is stated up to that point; after it the offsets still mirror the bytes tag by tag (C03_tag_mirrors_bytes). *)
+
+(* the per-tag statement in this vocabulary: a successful read consumes exactly one segment, which the item mirrors, and the
+   item reports the offset at which the segment starts *)
+Theorem C03_tag_segment : forall c st st' p, p_read_tag c st = (st', Ok p) ->
+  exists seg, b_bytes st = seg ++ b_bytes st' /\ b_off st' = b_off st + N.of_nat (length seg) /\
+              p_start p = b_off st /\ mirrors (c_sp c) (p_tag p) seg (b_bytes st').
+Proof. exact p_read_tag_tiles. Qed.
+
+(* Nothing buffered, any tolerance settings, every input, every sequence of next() / try_recover() / drain operations: the
+   non-End items yielded before the first error are Start and element items that tile a prefix of the input from offset 0:
+   each starts exactly where the previous one's header (masters) or header ++ payload (other elements) ends. *)
+Theorem C03_run_tiles : forall c input ops, c_buffered c = [] ->
+  Tiled (c_sp c) 0 input (non_end_items (clean_prefix (p_run c input ops))).
+Proof. exact run_tiles. Qed.
+
+(* a drain stops at its first error: all its non-End items tile the input *)
+Theorem C03_drain_tiles : forall c input, c_buffered c = [] ->
+  Tiled (c_sp c) 0 input (non_end_items (p_run c input [RAll])).
+Proof. exact run_all_tiles. Qed.
+
+(* the same spelled out: input = seg_1 ++ .. ++ seg_n ++ rest, the k-th non-End item reports the offset
+   |seg_1| + .. + |seg_(k-1)| ([offsets 0 segs]) and mirrors seg_k ([seg_mirror]) *)
+Theorem C03_drain_tiles_explicit : forall c input, c_buffered c = [] ->
+  exists segs rest, input = concat segs ++ rest /\
+    map snd (non_end_items (p_run c input [RAll])) = offsets 0 segs /\
+    seg_mirror (c_sp c) (non_end_items (p_run c input [RAll])) segs rest.
+Proof. exact run_all_tiles_explicit. Qed.
+
+(* what [Tiles] says, in general *)
+Theorem C03_tiles_explicit : forall sp off bytes items off' rest, Tiles sp off bytes items off' rest ->
+  exists segs, bytes = concat segs ++ rest /\ map snd items = offsets off segs /\
+               off' = off + N.of_nat (length (concat segs)) /\ seg_mirror sp items segs rest.
+Proof. exact Tiles_explicit. Qed.
+
+(* on byte input (every value below 256) a segment is never empty -- consecutive non-End items report strictly increasing
+   offsets -- and the id is decoded from the segment alone *)
+Theorem C03_segment_nonempty : forall sp t seg rest, mirrors sp t seg rest -> wf_bytes (seg ++ rest) ->
+  (1 <= length seg)%nat /\ exists idl, dec_id seg = Some (tag_id t, idl) /\ (1 <= idl <= length seg)%nat.
+Proof. exact mirrors_local. Qed.
+
+(* ------------------------------------------------------------------ whole runs: End offsets
+   [chk_off open items] (Proofs/Tiling.v) runs over (tag, offset) pairs with a chain [open] of (id, offset) pairs, innermost
+   first: a Start pushes (id, its offset); an End must name the innermost open master and report exactly the offset recorded
+   for it (else None); elements leave the chain alone; a Full item is rejected.  [out_pairs outs]: all items of a run with their
+   offsets.  [zero_base base]: every pair of [base] has offset 0. *)
+
+(* Nothing buffered, any tolerance settings, every input, every sequence of operations (errors and recoveries included):
+   every End item reports the offset of the Start item it closes; the Ends that close the implied ancestors of a
+   mid-document start (the base chain, used up only after every explicit Start is closed) report offset 0. *)
+Theorem C03_end_offsets : forall c input ops, c_buffered c = [] ->
+  exists base, zero_base base /\ chk_off base (out_pairs (p_run c input ops)) <> None.
+Proof. exact run_end_offsets. Qed.
+
+(* with Ends emitted at the end of the input, a drain that ends with None leaves nothing open *)
+Theorem C03_eof_closes_all : forall c input, c_buffered c = [] -> c_emit_eof c = true ->
+  forall outs, p_run c input [RAll] = outs ++ [ONone] ->
+  exists base, zero_base base /\ chk_off base (out_pairs outs) = Some [].
+Proof. exact eof_closes_all_off. Qed.
+
+(* the implied ancestors all get offset 0 *)
+Theorem C03_implied_offsets : forall sp p stk, implied_stack sp p = Some stk -> zero_base (map fr stk).
+Proof. exact implied_stack_zero. Qed.
+
+(* ------------------------------------------------------------------ buffered masters
+   [Unr b u] (Proofs/BufferSim.v): [u] is [b] with every Full item replaced by a Start at the offset of the Full item, the
+   unrolled children, and an End at the same offset.  When the run with buffered masters completes (items and the final None
+   only; the unbuffered run not cut at its item limit), the unrolled items are the items of the unbuffered reader, so they
+   tile the input and their End offsets match: a Full item reports the offset at which its master's header starts. *)
+Theorem C03_buffered_tiles_and_offsets : forall c input,
+  let outs := p_run c input [RAll] in
+  (forall o, In o outs -> match o with OItem _ _ | ONone => True | _ => False end) ->
+  ~ In OLimit (p_run (unbuffered c) input [RAll]) ->
+  exists U, Unr (out_items outs) U /\ Tiled (c_sp c) 0 input (ne_q U) /\
+            exists base, zero_base base /\ chk_off base (all_q U) <> None.
+Proof. exact buffered_run_tiles_and_offsets. Qed.
+
+Theorem C03_buffered_tiles_and_offsets_short : forall c input,
+  let outs := p_run c input [RAll] in
+  (forall o, In o outs -> match o with OItem _ _ | ONone => True | _ => False end) ->
+  (length (flat (out_tags outs)) < 4 * length input + 64)%nat ->
+  exists U, Unr (out_items outs) U /\ Tiled (c_sp c) 0 input (ne_q U) /\
+            exists base, zero_base base /\ chk_off base (all_q U) <> None.
+Proof. exact buffered_run_tiles_and_offsets_short. Qed.
+
+(* PARTIAL: the run-level statements are proved for the abstract reader (and, by C03_buffered_same, for the buffered machine on
+   sources that never pause or fail).  The tiling is stated up to the first error / try_recover call of a run; what follows
+   an error is covered tag by tag (C03_tag_mirrors_bytes) and by the correspondence check with the independent re-decoder
+   (props/readcheck.py check_tiling).  For buffered masters the statement is for complete runs (no error) via the unrolling. *)
 
 Example C03_ex :
   let sp := [ {| e_id := 129; e_ty := DMaster; e_path := [] |}; {| e_id := 16643; e_ty := DMaster; e_path := [PId 129] |};
@@ -39,3 +139,49 @@ Example C03_ex :
   p_run c [129; 136; 65; 3; 133; 65; 1; 130; 255; 56] [RAll] =
     [OItem (TStart 129) 0; OItem (TFull 16643 [TElem 16641 (VI (-200))]) 2; OItem (TEnd 129) 0; ONone].
 Proof. vm_compute. reflexivity. Qed.
+
+(* Root(129) > Seg(130) > Val(16641); Void(236) may occur anywhere *)
+Example C03_ex_tiling :
+  let sp := [ {| e_id := 129; e_ty := DMaster; e_path := [] |}; {| e_id := 130; e_ty := DMaster; e_path := [PId 129] |};
+              {| e_id := 16641; e_ty := DUInt; e_path := [PId 129; PId 130] |};
+              {| e_id := 236; e_ty := DBinary; e_path := [PGlobal None None] |} ] in
+  let c := {| c_sp := sp; c_allow_id := false; c_allow_hier := false; c_allow_over := false; c_max := Some 4000000000;
+              c_buffered := []; c_emit_eof := true |} in
+  (* a whole document: Root { Seg { Val 5 } Seg { Val 6 } } *)
+  let doc := [129; 140; 130; 132; 65; 1; 129; 5; 130; 132; 65; 1; 129; 6] in
+  let doc_segs := [[129; 140]; [130; 132]; [65; 1; 129; 5]; [130; 132]; [65; 1; 129; 6]] in
+  (* reading starts inside a Seg: Void, Val 5, (end of that Seg) Seg { Val 6 } *)
+  let mid := [236; 129; 0; 65; 1; 129; 5; 130; 132; 65; 1; 129; 6] in
+  let mid_segs := [[236; 129; 0]; [65; 1; 129; 5]; [130; 132]; [65; 1; 129; 6]] in
+  (* Val directly inside Root: hierarchy error *)
+  let bad := [129; 140; 130; 132; 65; 1; 129; 5; 65; 1; 129; 5; 130; 129; 0] in
+  (* the nested document: the non-End items sit at the running sums of the segment lengths *)
+  p_run c doc [RAll] =
+    [OItem (TStart 129) 0; OItem (TStart 130) 2; OItem (TElem 16641 (VU 5)) 4; OItem (TEnd 130) 2;
+     OItem (TStart 130) 8; OItem (TElem 16641 (VU 6)) 10; OItem (TEnd 130) 8; OItem (TEnd 129) 0; ONone] /\
+  non_end_items (p_run c doc [RAll]) =
+    [(TStart 129, 0); (TStart 130, 2); (TElem 16641 (VU 5), 4); (TStart 130, 8); (TElem 16641 (VU 6), 10)] /\
+  concat doc_segs = doc /\ offsets 0 doc_segs = [0; 2; 4; 8; 10] /\
+  map dec_id doc_segs = [Some (129, 1%nat); Some (130, 1%nat); Some (16641, 2%nat); Some (130, 1%nat); Some (16641, 2%nat)] /\
+  chk_off [] (out_pairs (p_run c doc [RAll])) = Some [] /\
+  (* the mid-document start: the Ends of the implied ancestors Seg and Root report offset 0 *)
+  p_run c mid [RAll] =
+    [OItem (TElem 236 (VB [0])) 0; OItem (TElem 16641 (VU 5)) 3; OItem (TEnd 130) 0;
+     OItem (TStart 130) 7; OItem (TElem 16641 (VU 6)) 9; OItem (TEnd 130) 7; OItem (TEnd 129) 0; ONone] /\
+  concat mid_segs = mid /\ map snd (non_end_items (p_run c mid [RAll])) = offsets 0 mid_segs /\
+  implied_stack sp (get_path sp 16641) =
+    Some [ {| f_id := 130; f_size := SUnknown; f_start := 0; f_data := 0 |};
+           {| f_id := 129; f_size := SUnknown; f_start := 0; f_data := 0 |} ] /\
+  chk_off [(130, 0); (129, 0)] (out_pairs (p_run c mid [RAll])) = Some [] /\
+  chk_off [] (out_pairs (p_run c mid [RAll])) = None /\
+  (* the checker is not permissive: an End with another offset than its Start is rejected *)
+  chk_off [] [(TStart 129, 0); (TStart 130, 2); (TEnd 130, 0); (TEnd 129, 0)] = None /\
+  chk_off [] [(TStart 129, 0); (TStart 130, 2); (TEnd 130, 2); (TEnd 129, 0)] = Some [] /\
+  (* an error: the items before it tile the input up to the offending element; the End offsets hold throughout *)
+  p_run c bad [RAll; RRecover; RAll] =
+    [OItem (TStart 129) 0; OItem (TStart 130) 2; OItem (TElem 16641 (VU 5)) 4; OItem (TEnd 130) 2;
+     OErr (RHierarchy 16641 (Some 129)); ORecErr (REof 15 None None None); OItem (TEnd 129) 0; ONone] /\
+  non_end_items (clean_prefix (p_run c bad [RAll; RRecover; RAll])) =
+    [(TStart 129, 0); (TStart 130, 2); (TElem 16641 (VU 5), 4)] /\
+  chk_off [] (out_pairs (p_run c bad [RAll; RRecover; RAll])) = Some [].
+Proof. vm_compute. repeat split; reflexivity. Qed.
